@@ -399,7 +399,7 @@ def _wrap_iff(func: ast.AST, circular: str, disabled: str):
         if/else, default then override) """
     from ..flow import facts_nnf, nnf_equiv, nnf_not, path_facts
     cfg = CFG(func)
-    spec = ("and", frozenset([("lit", circular, True), ("lit", disabled, False)]))
+    spec = ("and", frozenset([("lit", circular, True)] + ([("lit", disabled, False)] if disabled else [])))
     cases = []   # (value text, condition)
     for node in walk_local(func):
         targets = node.targets if isinstance(node, ast.Assign) else [node.target] if isinstance(node, ast.AnnAssign) else []
@@ -413,6 +413,10 @@ def _wrap_iff(func: ast.AST, circular: str, disabled: str):
                 base = facts_nnf(path_facts(cfg, call))
                 cases.append((txt(value.body), ("and", frozenset([base, nnf(value.test, True)])), call))
                 cases.append((txt(value.orelse), ("and", frozenset([base, nnf(value.test, False)])), call))
+    # what holds on the way to every assignment (an early return for empty input, say) is context, not a condition
+    if cases:
+        common = frozenset.intersection(*[frozenset(cond[1]) for _, cond, _ in cases])
+        cases = [(text, ("and", frozenset(cond[1]) - common), node) for text, cond, node in cases]
     forms = [f"{text} under {sorted(str(p) for p in cond[1])}" for text, cond, _ in cases]
     length = [c for c in cases if c[0] == "len(self)"]
     none = [c for c in cases if c[0] == "None"]
